@@ -7,6 +7,10 @@
 #include "quill/core/Codec.h"
 #include "quill/core/ThreadContextManager.h"
 #include "quill/UserClockSource.h"
+#include "quill/std/Vector.h"
+#include "quill/std/Optional.h"
+#include "quill/std/Pair.h"
+#include "quill/std/Map.h"
 using namespace quill;
 using namespace quill::detail;
 
@@ -196,4 +200,46 @@ extern "C" void h_log_macros()
   VASSERT(Codec<int32_t>::decode_arg(r) == v);
   if (which == 1) { LogLevel got; memcpy(&got, r, 1); VASSERT(got == dl); VASSERT(hd.md->log_level() == LogLevel::Dynamic); }
   VWITNESS(which == 1 && dl == LogLevel::Error);
+}
+
+// ---- (5) standard containers: vector<std::string> with a heap-allocated (long) element, vector<int>, optional<int>,
+// pair<int, std::string>: the containers are built BEFORE the steady-state call; the call itself must not allocate
+extern "C" void h_log_containers()
+{
+  uint64_t pos = 16;
+  BQ* q = setup(pos, 0);
+  char lb[20]; sym_bytes(lb, 19); lb[19] = 0;
+  for (uint32_t i = 0; i < 19; i++) if (lb[i] == 0) lb[i] = 'x';         // 19 chars: beyond the small-string buffer
+  std::vector<std::string> vs; vs.reserve(2); vs.emplace_back(lb, 19); vs.emplace_back("ab");
+  std::vector<int> vi; vi.reserve(2); vi.push_back(static_cast<int>(vnd_u64())); vi.push_back(static_cast<int>(vnd_u64()));
+  std::optional<int> oi; if (vnd_bool()) oi = static_cast<int>(vnd_u64());
+  std::pair<int, std::string> pr{static_cast<int>(vnd_u64()), std::string(lb, 17)};
+  static constexpr MacroMetadata md{"f.cpp:40", "fn", "{} {} {} {}", nullptr, LogLevel::Info, MacroMetadata::Event::Log};
+  size_t const expect = 32 + (8 + (4 + 19) + (4 + 2)) + (8 + 8) + (1 + (oi ? 4 : 0)) + (4 + 4 + 17);
+  vll_alloc_forbidden = 1;
+  bool ok = g_l.l.log_statement<false, false>(LogLevel::None, &md, vs, vi, oi, pr);
+  vll_alloc_forbidden = 0;
+  VASSERT(ok);
+  VASSERT(q->_writer_pos == pos + expect);
+  VWITNESS(oi.has_value());
+}
+
+// ---- (6) std::map<std::string, std::string> with long (heap) key and value, built beforehand
+extern "C" void h_log_map()
+{
+  uint64_t pos = 16;
+  BQ* q = setup(pos, 0);
+  char lb[20]; sym_bytes(lb, 19); lb[19] = 0;
+  for (uint32_t i = 0; i < 19; i++) if (lb[i] == 0) lb[i] = 'x';
+  union MS { std::map<std::string, std::string> m; MS() {} ~MS() {} };     // never destroyed (recursive tree erase is not the subject)
+  static MS ms; new (&ms.m) std::map<std::string, std::string>();
+  std::map<std::string, std::string>& m = ms.m;
+  m.emplace(std::string(lb, 17), std::string(lb, 19));
+  static constexpr MacroMetadata md{"f.cpp:50", "fn", "{}", nullptr, LogLevel::Info, MacroMetadata::Event::Log};
+  size_t const expect = 32 + 8 + (4 + 17) + (4 + 19);
+  vll_alloc_forbidden = 1;
+  bool ok = g_l.l.log_statement<false, false>(LogLevel::None, &md, m);
+  vll_alloc_forbidden = 0;
+  VASSERT(ok);
+  VASSERT(q->_writer_pos == pos + expect);
 }
